@@ -3,5 +3,12 @@
 //! check compiles only the harnesses it runs; see /verif/DESIGN.md.
 #![allow(dead_code, unused_imports, unused_macros, unused_variables, unused_mut, clippy::all)]
 
+#[cfg(kani)]
+pub mod common;
+
+#[cfg(all(kani, feature = "c01"))]
+pub mod c01_int_conv;
+#[cfg(all(kani, feature = "c02"))]
+pub mod c02_float_conv;
 #[cfg(all(kani, feature = "c06"))]
 pub mod c06_ring_buffer;
